@@ -129,7 +129,7 @@ fn run_case<G: AffineRepr>(env: &Env<G>, c: &Case) -> CaseOut {
 
 fn cases(ctx: &Ctx, curve: &str) -> Vec<Case> {
     let mut r = R::new(ctx.sub_seed(15, curve.len() as u64));
-    let n = ctx.n(400, 30000);
+    let n = ctx.n(3000, 60000);
     (0..n).map(|i| Case { curve: curve.into(), seed: r.u64(), depth: 1 + (i % 6) as u32, exprs: 8, only: None }).collect()
 }
 
